@@ -1,3 +1,4 @@
+import Firebolt.Properties.TransBase
 import Firebolt.Properties.C01
 import Firebolt.Properties.ExecFlow
 import Firebolt.Model.Startup
@@ -143,6 +144,59 @@ end
 
 /-! ### influence closure: the pinned functions, and every function of the repository that writes a struct field or package
 variable they read, are unchanged (digests regenerated from /repo on every run; a difference names the functions) -/
+/-! ### The code itself, translated (`Generated/Trans.lean`, rewritten from /repo on every run by extractor/translate.go)
+
+The `translated_*` theorems are about MiniGo terms the translator produced from the current Go source: for every
+environment the translated fragment does what the hand-written model function says.  They are semantic obligations —
+a rewrite that preserves the behaviour keeps them provable, a changed comparison, bound or argument does not. -/
+section Translated
+open Firebolt.MiniGo Firebolt.TransBase
+
+/-- `for i := 0; i < n; i++ { body }` with a body that does not touch `i` or `n`: the body `n` times (none for `n ≤ 0`) -/
+def countedLoop (body : S) : Nat → R → R
+  | 0, r => r
+  | k + 1, r => countedLoop body k (exec body r)
+
+theorem exec_startWorkersBody (r : R) (hl : r.live = true) :
+    exec Trans.exStartWorkersBody r =
+      { r with calls := r.calls ++ [("e.wg.Add", [1]), ("go e.runNode", [r.env "node"])] } := by
+  have h : r.ret = none ∧ r.stuck = false := by simpa [R.live] using hl
+  obtain ⟨h1, h2⟩ := h
+  minigo_simp [Trans.exStartWorkersBody, h1, h2]
+
+/-- startWorkers, translated: the node's rendezvous is sized with its own `workers`, then exactly `workers` times the
+executor's wait group is incremented and one goroutine running `runNode(node)` is started — no more, no fewer —, then the
+error handler and every child get the same treatment -/
+theorem translated_startWorkers_loop (n : Nat) (σ : Env) :
+    (countedLoop Trans.exStartWorkersBody n { env := σ }).calls =
+      (List.replicate n [("e.wg.Add", [1]), ("go e.runNode", [σ "node"])]).flatten ∧
+    ((countedLoop Trans.exStartWorkersBody n { env := σ }).calls.filter (fun c => c.1 == "go e.runNode")).length = n := by
+  have key : ∀ (n : Nat) (r : R), r.live = true →
+      (countedLoop Trans.exStartWorkersBody n r).calls =
+        r.calls ++ (List.replicate n [("e.wg.Add", [1]), ("go e.runNode", [r.env "node"])]).flatten := by
+    intro n
+    induction n with
+    | zero => intro r _; simp [countedLoop]
+    | succ k ih =>
+      intro r hl
+      rw [countedLoop, exec_startWorkersBody r hl, ih _ (by simpa [R.live] using hl)]
+      simp [List.replicate_succ, List.append_assoc]
+  have h := key n { env := σ } (by simp [R.live])
+  constructor
+  · simpa using h
+  · rw [h]; clear h key
+    induction n with
+    | zero => simp
+    | succ k ih => simp [List.replicate_succ] at ih ⊢
+
+theorem translated_startWorkers_head_tail (σ : Env) :
+    obs Trans.exStartWorkersHead σ = ⟨[("node.WaitGroup.Add", [σ "node.Config.Workers"])], none, false⟩ ∧
+    obs Trans.exStartWorkersTail σ =
+      ⟨(if σ "node.ErrorHandler" ≠ 0 then [("e.startWorkers", [σ "node.ErrorHandler"])] else []) ++
+        [("foreach node.Children: e.startWorkers", [σ "child"])], none, false⟩ := by
+  by_cases h : σ "node.ErrorHandler" = 0 <;> minigo_simp [Trans.exStartWorkersHead, Trans.exStartWorkersTail, h]
+end Translated
+
 theorem closure_unchanged : GeneratedClo.C05 = ExpectedClo.C05 := by rfl
 
 end Firebolt.C05
